@@ -16,6 +16,8 @@
 #include <exception>           // for exception
 #include <unistd.h>	       // for optarg, optind
 #include <ctype.h>             // for isupper
+#include <errno.h>             // for errno
+#include <stdio.h>             // for fflush, ferror, stdout
 #include <getopt.h>            // for option, getopt_long
 #include <limits.h>            // for SCHAR_MIN
 #include <string.h>            // for NULL, strlen, size_t
@@ -205,7 +207,43 @@ namespace DFS
   }
 }  // namespace DFS
 
+namespace
+{
+  int wrapped_main(int argc, char *argv[]);
+}
+
 int main (int argc, char *argv[])
+{
+  /* We use a wrapper like this so that the various parts of the main
+   * function can just return and still take advantage of the output
+   * failure detection below (bbcbasic_to_text does the same).
+   */
+  int exitval = wrapped_main(argc, argv);
+
+  /* The output of the command went to std::cout, which (being
+   * synchronised with stdio) is ultimately buffered in stdout.  The C
+   * library would flush it at exit, but a failure at that point could
+   * not change the exit status.  So we flush it ourselves and check
+   * that everything we wrote was accepted.
+   */
+  errno = 0;
+  std::cout.flush();
+  if (0 != fflush(stdout) || ferror(stdout) || !std::cout.good())
+    {
+      const int saved_errno = errno;
+      std::cerr << "error: failed to write to standard output";
+      if (saved_errno)
+	std::cerr << ": " << strerror(saved_errno);
+      std::cerr << "\n";
+      if (exitval == 0)
+	exitval = 1;
+    }
+  return exitval;
+}
+
+namespace
+{
+int wrapped_main(int argc, char *argv[])
 {
   if (!check_consistency())
     return 2;
@@ -338,3 +376,4 @@ int main (int argc, char *argv[])
       return 1;
     }
 }
+}  // namespace
